@@ -122,7 +122,7 @@ Shape(i) == IF i = 1 THEN B1 ELSE B2
 Nested == [i \in 1..49 |->
              Elem(IF i % 5 = 0 THEN "foreign" ELSE "stanza", IF i % 3 = 0 THEN "own" ELSE "peer",
                   Ins(Shape(Places[D(i, 7, 7) + 1][1]), Places[D(i, 7, 7) + 1][2], StopToks[D(i, 1, 7) + 1]))]
-TopTerms == << Top("text"), Top("comment"), Top("pi"), Top("directive"), Top("restart"), Top("otherstream"),
+TopTerms == << Top("text"), Top("utext"), Top("mtext"), Top("comment"), Top("pi"), Top("directive"), Top("restart"), Top("otherstream"),
                Top("close"), Top("eof"), Top("badtop"), SErr("host-unknown"), SErr("not-well-formed") >>
 Terms == Nested \o TopTerms \o <<Top("none")>>       \* "none": no terminating item at all
 Posts == << <<>>, <<Elem("stanza", "peer", B1)>> >>
@@ -131,7 +131,8 @@ P8(n, m) == Prog8(n, m)
 Cycles == << <<P8(0, "stop")>>, <<P8(1, "stop")>>, <<P8(1, "ignore")>>, <<P8(2, "stop")>>, <<P8(2, "ignore")>>,
              <<P8(4, "stop")>>, <<P8(4, "ignore")>>, <<P8(7, "stop")>>, <<P8(7, "ignore")>>, <<P8(13, "stop")>>,
              <<P8(13, "ignore")>>, <<P8(0, "stop"), P8(13, "ignore")>>, <<P8(13, "stop"), P8(1, "ignore")>>,
-             <<P8(4, "ignore"), P8(0, "stop"), P8(13, "stop")>> >>
+             <<P8(4, "ignore"), P8(0, "stop"), P8(13, "stop")>>,
+             <<P8(0, "stopeof")>>, <<P8(1, "stopeof")>>, <<P8(2, "stopeof")>>, <<P8(4, "stopeof"), P8(13, "stopeof")>> >>
 
 (* every way a session of the two stanza namespaces can get its own address *)
 Setups8 == SetToSeq({s \in AllSess : s.kind # "ws"})
